@@ -243,7 +243,23 @@ func C15(c *Ctx) {
 			n++
 			sl, ok := call.Common().Args[0].(*ssa.Slice)
 			lo, _ := constInt(orZero(sl0(sl, ok)))
-			good := ok && sameSliceBase(sl.X, buf) && lo == 20 && sl.High == lengthV
+			stripConv := func(v ssa.Value) ssa.Value {
+				for {
+					cv, isC := v.(*ssa.Convert)
+					if !isC {
+						return v
+					}
+					v = cv.X
+				}
+			}
+			sameLen := func(a, b ssa.Value) bool { return a != nil && b != nil && stripConv(a) == stripConv(b) }
+			good := ok && sameSliceBase(sl.X, buf) && lo == 20 && sameLen(sl.High, lengthV)
+			if ok && !good && lo == 20 && sl.High == nil {
+				// packet := buf[:length]; parseAttributes(packet[20:]) — the tail of the verified slice itself
+				if inner, isIn := sl.X.(*ssa.Slice); isIn && inner.Low == nil && sameSliceBase(inner.X, buf) && sameLen(inner.High, lengthV) {
+					good = true
+				}
+			}
 			r.Check("C15.D5", load.ShortFunc(loop), "parseAttributes(buf[20:length])", c.P.Pos(instrPos(call)), good, "attributes are not parsed from exactly the verified bytes buf[20:length]")
 			// the result flows to the handlers
 			if cv, isv := call.(*ssa.Call); isv && good {
@@ -471,6 +487,13 @@ func allBytesCompared(f *ssa.Function, A *ssa.Parameter, sum *ssa.Call) (bool, s
 		}
 		// non-constant result: must be an equality library call over (A, digest)
 		any = true
+		// subtle.ConstantTimeCompare(a, b) == 1
+		wantOne := false
+		if bo, isB := res.(*ssa.BinOp); isB && bo.Op == token.EQL {
+			if k, isK := constInt(bo.Y); isK && k == 1 {
+				res, wantOne = bo.X, true
+			}
+		}
 		call, ok := res.(*ssa.Call)
 		if !ok {
 			return false, "result is neither a constant nor an equality call"
@@ -480,12 +503,20 @@ func allBytesCompared(f *ssa.Function, A *ssa.Parameter, sum *ssa.Call) (bool, s
 			return false, "result computed by a dynamic call"
 		}
 		name := g.Pkg.Pkg.Path() + "." + g.Name()
-		switch name {
-		case "bytes.Equal", "crypto/hmac.Equal":
+		switch {
+		case (name == "bytes.Equal" || name == "crypto/hmac.Equal") && !wantOne:
+		case name == "crypto/subtle.ConstantTimeCompare" && wantOne:
 		default:
 			return false, "result computed by " + name + ", not a byte-wise equality"
 		}
-		a0, a1 := call.Call.Args[0], call.Call.Args[1]
+		// the digest, or its prefix of the authenticator's length (what the byte loop compares as well)
+		unslice := func(v ssa.Value) ssa.Value {
+			if sl, isSl := v.(*ssa.Slice); isSl && sl.Low == nil && (sl.High == nil || lenOf(sl.High) == ssa.Value(A)) {
+				return sl.X
+			}
+			return v
+		}
+		a0, a1 := unslice(call.Call.Args[0]), unslice(call.Call.Args[1])
 		if !((a0 == ssa.Value(A) && isDigest(a1)) || (a1 == ssa.Value(A) && isDigest(a0))) {
 			return false, "equality call does not compare the received authenticator with the digest"
 		}
